@@ -117,6 +117,8 @@ def jsonable(o):
     if isinstance(o, (list, tuple)):
         return [jsonable(v) for v in o]
     if isinstance(o, np.ndarray):
+        if o.ndim == 0:
+            return jsonable(o.item())
         return [jsonable(v) for v in o.tolist()]
     if isinstance(o, (np.integer,)):
         return int(o)
